@@ -31,9 +31,10 @@ def dump_mir(build_dir):
     env = dict(os.environ)
     env["CARGO_NET_OFFLINE"] = "true"
     env.pop("RUSTFLAGS", None)
-    cmd = ["cargo", "+nightly", "rustc", "--offline", "--lib", "--manifest-path", "/repo/Cargo.toml",
+    repo = os.environ.get("MQV_REPO", "/repo")
+    cmd = ["cargo", "+nightly", "rustc", "--offline", "--lib", "--manifest-path", repo + "/Cargo.toml",
            "--target-dir", tdir, "--", "-Zunpretty=mir", "-C", "debug-assertions=off", "-C", "overflow-checks=on"]
-    p = subprocess.run(cmd, stdout=subprocess.PIPE, stderr=subprocess.PIPE, text=True, env=env, cwd="/repo")
+    p = subprocess.run(cmd, stdout=subprocess.PIPE, stderr=subprocess.PIPE, text=True, env=env, cwd=repo)
     if p.returncode != 0 or "fn " not in p.stdout:
         raise RuntimeError("MIR dump failed:\n" + p.stderr[-3000:])
     return p.stdout
